@@ -25,8 +25,7 @@ const typename ReadingT::SensorJacobianT H =
 
 // Project State Noise into Sensor Space
 // S = H * Sigma * H.T + Q_t
-const typename ReadingT::CovarianceT sensor_estimate_covariance =
-    H * Sigma.data * H.transpose() +
+const typename ReadingT::CovarianceT Q =
     ReadingT::SensorModel::covariance(state,
                                       // clang-format off
 {% if enable_calibration %}
@@ -35,6 +34,8 @@ const typename ReadingT::CovarianceT sensor_estimate_covariance =
                                       // clang-format off
 {% endif %}  // clang-format on
                                       reading);
+const typename ReadingT::CovarianceT sensor_estimate_covariance =
+    H * Sigma.data * H.transpose() + Q;
 
 // S_inv = inverse(S)
 const typename ReadingT::CovarianceT S_inv =
@@ -65,10 +66,15 @@ State next_state;
 next_state.data = mu.data + kalman_gain * innovation;
 
 // Update Covariance
-// next_covariance = Sigma - K * H * Sigma
-// K * H * Sigma is symmetric in exact arithmetic, remove the rounding asymmetry
+// next_covariance = Sigma - K * H * Sigma, evaluated in the Joseph form
+//   (I - K * H) * Sigma * (I - K * H).T + K * Q * K.T
+// which does not lose positive semi-definiteness to cancellation when the
+// prior is much larger than the posterior (e.g. a diffuse prior)
+const typename Covariance::DataT I_KH =
+    Covariance::DataT::Identity() - kalman_gain * H;
 const typename Covariance::DataT updated_covariance =
-    Sigma.data - kalman_gain * H * Sigma.data;
+    I_KH * Sigma.data * I_KH.transpose() +
+    kalman_gain * Q * kalman_gain.transpose();
 Covariance next_covariance;
 next_covariance.data =
     (updated_covariance + updated_covariance.transpose()) / 2.0;
